@@ -254,13 +254,14 @@ func cmdRun(args []string) {
 	hdir := fs.String("harness-dir", "/verif/harness", "")
 	pkg := fs.String("pkg", "wamp", "")
 	name := fs.String("harness", "", "")
-	unwind := fs.Int("unwind", 12, "")
+	unwind := fs.Int("unwind", 40, "")
 	maxPaths := fs.Int("max-paths", 20000, "")
 	workers := fs.Int("workers", 8, "")
 	solver := fs.String("solver", "z3", "")
 	tmo := fs.Int("timeout", 600, "")
 	verbose := fs.Bool("v", false, "")
 	cpuprof := fs.String("cpuprofile", "", "")
+	maxSteps := fs.Int("max-steps", 2000000, "")
 	fs.Parse(args)
 	if *cpuprof != "" {
 		f, _ := os.Create(*cpuprof)
@@ -274,7 +275,7 @@ func cmdRun(args []string) {
 		os.Exit(3)
 	}
 	fmt.Fprintf(os.Stderr, "loaded in %.1fs\n", time.Since(t0).Seconds())
-	hr := runHarness(P, HarnessSpec{Name: *name, Pkg: *pkg, Unwind: *unwind, MaxPaths: *maxPaths, TimeoutS: *tmo}, *workers, *solver, *verbose)
+	hr := runHarness(P, HarnessSpec{Name: *name, Pkg: *pkg, Unwind: *unwind, MaxPaths: *maxPaths, TimeoutS: *tmo, MaxSteps: *maxSteps}, *workers, *solver, *verbose)
 	printHR(hr, *verbose)
 }
 
@@ -294,7 +295,7 @@ func printHR(hr *HarnessResult, verbose bool) {
 	}
 	seen := map[string]bool{}
 	for _, v := range hr.Violations {
-		key := v.Kind + v.Label + v.Msg + v.Known
+		key := v.Kind + v.Label + strings.SplitN(v.Where, " < ", 2)[0] + v.Known
 		if seen[key] {
 			continue
 		}
